@@ -30,26 +30,42 @@ NUMS = ["u0", "u1", "u2", "u3", "u10", "i-1", "i-7", G.f64_bits(1.5), G.f64_bits
 
 
 def rs(rng):
+    r = rng.random()
+    if r < 0.06:
+        return ("s", rng.choice(G.LONG_STRS))
+    if r < 0.12:
+        # composed strings: repeats, shared prefixes / suffixes, case and normalisation variants
+        a, b = rng.choice(STRS), rng.choice(STRS)
+        return ("s", rng.choice([a + b, a * rng.choice([2, 3, 17, 33]), a.upper(), b + a + b, a + " " + b, a[::-1]]))
     return ("s", rng.choice(STRS))
 
 
 def rn(rng):
+    r = rng.random()
+    if r < 0.08:
+        v = rng.choice(G.BAND_NUMS) + rng.choice([0, 0, 1, -1])
+        if -2 ** 63 <= v < 0:
+            return E.Num("i%d" % v)
+        if 0 <= v < 2 ** 64:
+            return E.Num("u%d" % v)
+    if r < 0.12:
+        return E.Num(G.f64_bits(float(rng.choice(G.BAND_NUMS)) + rng.choice([0.5, -0.5, 0.25, 0.999999, 1e-9])))
     return E.Num(rng.choice(NUMS))
 
 
 def arr_n(rng):
-    n = rng.choice([0, 1, 2, 3, 5, 8, 21, 40, 64])
+    n = rng.choice([0, 1, 2, 3, 5, 8, 21, 40, 64]) if rng.random() < 0.93 else rng.choice([33, 65, 129, 257, 300])
     pool = [rn(rng) for _ in range(max(1, n // 3 + 1))]
     return [rng.choice(pool) if rng.random() < 0.6 else rn(rng) for _ in range(n)]
 
 
 def arr_s(rng):
-    n = rng.choice([0, 1, 2, 3, 5, 8, 21, 40, 64])
+    n = rng.choice([0, 1, 2, 3, 5, 8, 21, 40, 64]) if rng.random() < 0.93 else rng.choice([33, 65, 129, 257, 300])
     return [rs(rng) for _ in range(n)]
 
 
 def arr_obj(rng, keytype):
-    n = rng.choice([0, 1, 2, 3, 5, 8, 22, 40])
+    n = rng.choice([0, 1, 2, 3, 5, 8, 22, 40]) if rng.random() < 0.93 else rng.choice([33, 65, 129, 257])
     out = []
     for i in range(n):
         k = E.Num("u%d" % rng.randrange(0, 4)) if keytype == "n" else ("s", rng.choice(["a", "b", "é", ""]))
